@@ -55,6 +55,9 @@ L == INSTANCE Layout WITH MaxLen <- 2, Small <- FALSE, Pinned <- FALSE, Emit <- 
 
 Cat(ss) == FoldLeft(LAMBDA a, b : a \o b, <<>>, ss)
 Range0(n) == [i \in 1..n |-> i - 1]
+(* TLC evaluates [j \in S |-> e] lazily, element by element, every time it is applied; nested bit
+   operators would re-evaluate each other exponentially.  MkSeq builds the sequence eagerly. *)
+MkSeq(n, f(_)) == FoldLeft(LAMBDA acc, j : Append(acc, f(j)), <<>>, [j \in 1..n |-> j])
 
 ----------------------------------------------------------------------------
 (* Types.  k = "int" | "fp" | "arr" | "agg" | "bf".  Aggregates carry the
@@ -168,13 +171,15 @@ VMask(ty) ==
     [] ty.k = "fp"  -> [i \in 1..ty.sz |-> i <= ty.vb]
     [] ty.k = "arr" -> Cat([i \in 1..ty.n |-> VMask(ty.sub[1])])
     [] ty.k = "agg" ->
-         LET sub == [j \in DOMAIN ty.sub |-> IF ty.sub[j].k = "bf" THEN <<>> ELSE VMask(ty.sub[j])] IN
-         [i \in 1..ty.sz |->
-            \E j \in DOMAIN ty.sub :
-               IF ty.sub[j].k = "bf"
-               THEN ty.sub[j].w > 0 /\ ty.sub[j].named /\ ty.pl[j].pos \div 8 <= i - 1
-                    /\ i - 1 <= (ty.pl[j].pos + ty.sub[j].w - 1) \div 8
-               ELSE LET o == ty.pl[j].pos \div 8 IN o <= i - 1 /\ i - 1 < o + ty.sub[j].sz /\ sub[j][i - o]]
+         FoldLeft(LAMBDA acc, j :
+                    LET m == ty.sub[j]
+                        o == ty.pl[j].pos \div 8 IN
+                    IF m.k = "bf"
+                    THEN IF m.w = 0 \/ ~m.named THEN acc
+                         ELSE [i \in DOMAIN acc |-> acc[i] \/ (o <= i - 1 /\ i - 1 <= (ty.pl[j].pos + m.w - 1) \div 8)]
+                    ELSE LET sm == VMask(m) IN
+                         [i \in DOMAIN acc |-> acc[i] \/ (o <= i - 1 /\ i - 1 < o + m.sz /\ sm[i - o])],
+                  [i \in 1..ty.sz |-> FALSE], [j \in DOMAIN ty.sub |-> j])
 
 (* pointer model for FormsAgree: a pointer is a byte offset into the object;
    `.m` adds the member offset to the address of its aggregate, `[i]` / `*(a+i)` / `i[a]`
@@ -195,16 +200,16 @@ Bit(bs, i) == (bs[(i \div 8) + 1] \div (2 ^ (i % 8))) % 2
 Pack(f(_)) == f(0) + 2 * f(1) + 4 * f(2) + 8 * f(3) + 16 * f(4) + 32 * f(5) + 64 * f(6) + 128 * f(7)
 (* bits [pos, pos+w) of m := low w bits of the 8-byte value v *)
 SetBits(m, pos, w, v) ==
-  [j \in DOMAIN m |->
+  MkSeq(Len(m), LAMBDA j :
      IF (j - 1) * 8 + 7 < pos \/ (j - 1) * 8 >= pos + w THEN m[j]
      ELSE LET b(k) == LET i == (j - 1) * 8 + k IN IF i >= pos /\ i < pos + w THEN Bit(v, i - pos) ELSE Bit(m, i)
-          IN Pack(b)]
+          IN Pack(b))
 (* the 8-byte value of bits [pos, pos+w), sign- or zero-extended *)
 GetBits(m, pos, w, sg) ==
-  [j \in 1..8 |->
+  MkSeq(8, LAMBDA j :
      LET b(k) == LET i == (j - 1) * 8 + k IN
                  IF i < w THEN Bit(m, pos + i) ELSE IF sg THEN Bit(m, pos + w - 1) ELSE 0
-     IN Pack(b)]
+     IN Pack(b))
 (* value kinds.  For integers any bytes do (bits above the width must be cut off); floating
    values are normal numbers so that no x87 / SSE move can alter them.                    *)
 IntVal(kind) ==
@@ -235,28 +240,29 @@ VARIABLES T,      \* the aggregate type of "obj" and "src"
           mem,    \* object -> bytes
           prev,   \* memory before the last step (for Frame)
           last,   \* what the last step was and what the program must print for it
-          n       \* steps taken
-vars == <<T, mem, prev, last, n>>
+          n,      \* steps taken
+          ps,     \* Paths(T), evaluated once
+          vm      \* VMask(T), evaluated once
+vars == <<T, mem, prev, last, n, ps, vm>>
 
 InitMem(t) == [pre |-> Fill("pre", GuardSize), obj |-> Fill("obj", t.sz), post |-> Fill("post", GuardSize),
                src |-> Fill("src", t.sz)]
 NoStep == [act |-> "init", pi |-> 0, v |-> "", op |-> "", res |-> <<>>, pos |-> 0, w |-> 0, unspec |-> FALSE]
 Init == /\ T \in Shapes
-        /\ mem = InitMem(T) /\ prev = mem /\ last = NoStep /\ n = 0
+        /\ mem = InitMem(T) /\ prev = mem /\ last = NoStep /\ n = 0 /\ ps = Paths(T) /\ vm = VMask(T)
 
 LoadLv(m, p) == IF IsBits(p) THEN GetBits(m.obj, p.pos, Width(p), p.ty.sg)
                 ELSE SubSeq(m.obj, p.pos \div 8 + 1, p.pos \div 8 + p.ty.sz)
-Mask(bytes, mask) == [i \in DOMAIN bytes |-> IF mask[i] THEN bytes[i] ELSE -1]
-PutBytes(m, off, bytes) == [j \in DOMAIN m |-> IF j - 1 >= off /\ j - 1 < off + Len(bytes) THEN bytes[j - off] ELSE m[j]]
+Mask(bytes, mask) == MkSeq(Len(bytes), LAMBDA i : IF mask[i] THEN bytes[i] ELSE -1)
+PutBytes(m, off, bytes) == MkSeq(Len(m), LAMBDA j : IF j - 1 >= off /\ j - 1 < off + Len(bytes) THEN bytes[j - off] ELSE m[j])
 
 Case(step) == [shape |-> T, step |-> n + 1, a |-> step, mem |-> mem',
-               paths |-> [i \in DOMAIN Paths(T) |-> [hops |-> Paths(T)[i].hops, lv |-> Lv(Paths(T)[i]),
-                                                      k |-> Paths(T)[i].ty.k, id |-> Paths(T)[i].ty.id]]]
+               paths |-> [i \in DOMAIN ps |-> [hops |-> ps[i].hops, lv |-> Lv(ps[i]), k |-> ps[i].ty.k, id |-> ps[i].ty.id]]]
 Out(step) == EmitOut => CSVWrite("%1$s", <<ToJson(Case(step))>>, IOEnv.OUT)
-Step(m2, step) == /\ prev' = mem /\ mem' = m2 /\ last' = step /\ n' = n + 1 /\ UNCHANGED T /\ Out(step)
+Step(m2, step) == /\ prev' = mem /\ mem' = m2 /\ last' = step /\ n' = n + 1 /\ UNCHANGED <<T, ps, vm>> /\ Out(step)
 
 (* p = v for an integer or bit-field lvalue *)
-StoreV(ps, pi, kind) ==
+StoreV(pi, kind) ==
   LET p == ps[pi]
       v == IF p.ty.k = "bf" /\ p.ty.t = "bool" THEN BoolVal(kind) ELSE IntVal(kind)
       o2 == SetBits(mem.obj, p.pos, Width(p), v)
@@ -265,7 +271,7 @@ StoreV(ps, pi, kind) ==
            pos |-> p.pos, w |-> Width(p), unspec |-> FALSE])
 
 (* p = tmp for a floating / aggregate member: value bytes are copied, padding becomes unspecified *)
-StoreB(ps, pi, kind) ==
+StoreB(pi, kind) ==
   LET p == ps[pi]
       bytes == Mask(ValOf(p.ty, kind), VMask(p.ty))
       o2 == PutBytes(mem.obj, p.pos \div 8, bytes)
@@ -277,7 +283,7 @@ StoreB(ps, pi, kind) ==
 Inc(v) == LET r == FoldLeft(LAMBDA acc, b : <<Append(acc[1], (b + acc[2]) % 256), (b + acc[2]) \div 256>>, <<<<>>, 1>>, v) IN r[1]
 Dec(v) == LET r == FoldLeft(LAMBDA acc, b : <<Append(acc[1], (b + 256 - acc[2]) % 256), IF b - acc[2] < 0 THEN 1 ELSE 0>>, <<<<>>, 1>>, v) IN r[1]
 OpC == <<90, 165, 15, 240, 51, 204, 85, 170>>
-BitOp(v, c, f(_, _)) == [j \in 1..8 |-> LET b(k) == f(Bit(v, (j - 1) * 8 + k), Bit(c, (j - 1) * 8 + k)) IN Pack(b)]
+BitOp(v, c, f(_, _)) == MkSeq(8, LAMBDA j : LET b(k) == f(Bit(v, (j - 1) * 8 + k), Bit(c, (j - 1) * 8 + k)) IN Pack(b))
 Apply(op, v) ==
   CASE op = "or"  -> BitOp(v, OpC, LAMBDA x, y : IF x + y > 0 THEN 1 ELSE 0)
     [] op = "xor" -> BitOp(v, OpC, LAMBDA x, y : (x + y) % 2)
@@ -293,11 +299,11 @@ OpDefined(p, op, cur) ==
   \/ ~p.ty.sg \/ Width(p) < ArithW(p)
   \/ /\ op \in {"add1", "postinc", "preinc"} => \E i \in 0..(Width(p) - 2) : Bit(cur, i) = 0
      /\ op \in {"predec", "postdec"} => \E i \in 0..(Width(p) - 2) : Bit(cur, i) = 1
-OpAssign(ps, pi, op) ==
+OpAssign(pi, op) ==
   LET p == ps[pi]
       cur == GetBits(mem.obj, p.pos, Width(p), p.ty.sg)
       o2 == SetBits(mem.obj, p.pos, Width(p), Apply(op, cur))
-  IN /\ OpDefined(p, op, cur)
+  IN /\ OpDefined(p, op, cur) = TRUE
      /\ ~(p.ty.k = "bf" /\ p.ty.t = "bool")
      /\ Step([mem EXCEPT !.obj = o2],
              [act |-> "opassign", pi |-> pi, v |-> "", op |-> op,
@@ -305,16 +311,16 @@ OpAssign(ps, pi, op) ==
               pos |-> p.pos, w |-> Width(p), unspec |-> FALSE])
 
 (* obj = src  (also spelled *p = *q, and as a struct returned by value) *)
-CopyA(m) == [m EXCEPT !.obj = Mask(m.src, VMask(T))]
+CopyA(m) == [m EXCEPT !.obj = Mask(m.src, vm)]
 (* Level I: store() copies size bytes one at a time *)
 CopyI(m) == [m EXCEPT !.obj = FoldLeft(LAMBDA acc, i : IF i < T.sz + Bound /\ i < Len(acc) THEN [acc EXCEPT ![i + 1] = m.src[i + 1]] ELSE acc,
                                        m.obj, Range0(T.sz + 1))]
 CopyAgg == Step(CopyA(mem), [act |-> "copy", pi |-> 0, v |-> "", op |-> "", res |-> <<>>, pos |-> 0, w |-> T.sz * 8, unspec |-> TRUE])
 
 (* T obj = { first leaf = v }: every other value byte is zero (6.7.9p19/p21), padding unspecified *)
-ZeroFill(ps, pi, kind) ==
+ZeroFill(pi, kind) ==
   LET p == ps[pi]
-      z == Mask([j \in 1..T.sz |-> 0], VMask(T))
+      z == Mask([j \in 1..T.sz |-> 0], vm)
       o2 == IF IsBits(p) THEN SetBits(z, p.pos, Width(p), IF p.ty.t = "bool" THEN BoolVal(kind) ELSE IntVal(kind))
             ELSE PutBytes(z, p.pos \div 8, Mask(ValOf(p.ty, kind), VMask(p.ty)))
   IN Step([mem EXCEPT !.obj = o2],
@@ -323,41 +329,39 @@ ZeroFill(ps, pi, kind) ==
 (* free exploration: every path x value kind / op at every step *)
 FreeNext ==
   /\ n < MaxSteps
-  /\ LET ps == Paths(T) IN
-     \/ \E pi \in DOMAIN ps, kind \in VKinds :
-          IF IsBits(ps[pi]) THEN StoreV(ps, pi, kind) ELSE (kind \in {"pat", "neg"} /\ StoreB(ps, pi, kind))
-     \/ \E pi \in DOMAIN ps, op \in Ops : IsBits(ps[pi]) /\ OpAssign(ps, pi, op)
+  /\ \/ \E pi \in DOMAIN ps, kind \in VKinds :
+          IF IsBits(ps[pi]) THEN StoreV(pi, kind) ELSE (kind \in {"pat", "neg"} /\ StoreB(pi, kind))
+     \/ \E pi \in DOMAIN ps, op \in Ops : IsBits(ps[pi]) /\ OpAssign(pi, op)
      \/ CopyAgg
-     \/ \E pi \in DOMAIN ps : ps[pi].ty.k # "agg" /\ ZeroFill(ps, pi, "pat")
+     \/ \E pi \in DOMAIN ps : ps[pi].ty.k # "agg" /\ ZeroFill(pi, "pat")
 (* guided walk: round 1 stores to every path in turn (value kinds rotate), round 2 op-assigns
    every integer path, then the copy and the zero fill                                         *)
 KSeq == <<"ones", "pat", "neg", "zero", "one">>
 OSeq == <<"or", "postinc", "xor", "predec", "add1", "and", "preinc", "postdec">>
 WalkNext ==
-  LET ps == Paths(T)
-      np == Len(ps) IN
+  LET np == Len(ps) IN
   \/ /\ n < np
      /\ LET pi == n + 1
             kind == KSeq[((n + Len(T.sub)) % 5) + 1] IN
-        IF IsBits(ps[pi]) THEN StoreV(ps, pi, kind)
-        ELSE StoreB(ps, pi, IF kind \in {"ones", "neg", "zero"} THEN "neg" ELSE "pat")
+        IF IsBits(ps[pi]) THEN StoreV(pi, kind)
+        ELSE StoreB(pi, IF kind \in {"ones", "neg", "zero"} THEN "neg" ELSE "pat")
   \/ /\ n >= np /\ n < 2 * np
      /\ LET pi == n - np + 1
             op == OSeq[((n + T.sz) % 8) + 1] IN
         IF IsBits(ps[pi]) /\ ~(ps[pi].ty.k = "bf" /\ ps[pi].ty.t = "bool")
            /\ OpDefined(ps[pi], op, GetBits(mem.obj, ps[pi].pos, Width(ps[pi]), ps[pi].ty.sg))
-        THEN OpAssign(ps, pi, op)
-        ELSE IF IsBits(ps[pi]) THEN StoreV(ps, pi, "one") ELSE StoreB(ps, pi, "pat")
+        THEN OpAssign(pi, op)
+        ELSE IF IsBits(ps[pi]) THEN StoreV(pi, "one") ELSE StoreB(pi, "pat")
   \/ n = 2 * np /\ CopyAgg
   \/ /\ n = 2 * np + 1
      /\ \E pi \in DOMAIN ps : /\ ps[pi].ty.k # "agg" /\ \A pj \in 1..(pi - 1) : ps[pj].ty.k = "agg"
-                              /\ ZeroFill(ps, pi, "pat")
+                              /\ ZeroFill(pi, "pat")
 Next == IF Walk THEN WalkNext ELSE FreeNext
 Spec == Init /\ [][Next]_vars
 
 ----------------------------------------------------------------------------
 (* Invariants *)
-LastPath == Paths(T)[last.pi]
+LastPath == ps[last.pi]
 RoundTrip ==
   last.act \in {"store", "opassign"} =>
      LET p == LastPath
@@ -370,21 +374,20 @@ RoundTrip ==
 (* a step changes nothing outside [pos, pos+w) of obj *)
 Frame ==
   /\ mem.pre = Fill("pre", GuardSize) /\ mem.post = Fill("post", GuardSize) /\ mem.src = Fill("src", T.sz)
-  /\ \A j \in DOMAIN mem.obj :
-       ((j - 1) * 8 + 7 < last.pos \/ (j - 1) * 8 >= last.pos + last.w) => mem.obj[j] = prev.obj[j]
-  /\ ~last.unspec => \A i \in 0..(T.sz * 8 - 1) :
-       (i < last.pos \/ i >= last.pos + last.w) => (prev.obj[(i \div 8) + 1] >= 0 => Bit(mem.obj, i) = Bit(prev.obj, i))
   /\ Len(mem.obj) = T.sz
+  /\ \A j \in DOMAIN mem.obj :
+       IF (j - 1) * 8 + 7 < last.pos \/ (j - 1) * 8 >= last.pos + last.w THEN mem.obj[j] = prev.obj[j]
+       ELSE (~last.unspec /\ prev.obj[j] >= 0) =>
+              \A k \in 0..7 : LET i == (j - 1) * 8 + k IN
+                 (i < last.pos \/ i >= last.pos + last.w) => Bit(mem.obj, i) = Bit(prev.obj, i)
 FormsAgree ==
-  \A pi \in DOMAIN Paths(T) : \A f \in Forms :
-     LET p == Paths(T)[pi] IN EvalForm(f, T, p) = Lv(p).off
+  \A pi \in DOMAIN ps : \A f \in Forms : EvalForm(f, T, ps[pi]) = Lv(ps[pi]).off
 (* distinct leaves of a struct occupy disjoint bits, inside the object, aligned unless packed *)
 RECURSIVE NoUnionOn(_, _, _)
 NoUnionOn(ty, hops, k) == IF k > Len(hops) THEN TRUE
                           ELSE IF hops[k].h = "i" THEN NoUnionOn(ty.sub[1], hops, k + 1)
                           ELSE ~ty.union /\ NoUnionOn(ty.sub[hops[k].i + 1], hops, k + 1)
 PathsDisjoint ==
-  LET ps == Paths(T) IN
   /\ \A i \in DOMAIN ps : ps[i].pos >= 0 /\ ps[i].pos + Width(ps[i]) <= T.sz * 8
   /\ \A i, j \in DOMAIN ps :
        (i < j /\ ps[i].ty.k # "agg" /\ ps[j].ty.k # "agg" /\ NoUnionOn(T, ps[i].hops, 1) /\ NoUnionOn(T, ps[j].hops, 1))
@@ -392,11 +395,11 @@ PathsDisjoint ==
   /\ \A i \in DOMAIN ps : ps[i].ty.k = "bf" =>
        (ps[i].pos % (ps[i].ty.sz * 8)) + ps[i].ty.w <= ps[i].ty.sz * 8          \* inside one storage unit
 (* Level I byte loop = Level A copy on every value byte, and touches nothing else *)
-CopyRefines ==
+CopyRefines == n = 0 =>
   LET a == CopyA(mem).obj
       i == CopyI(mem) IN
   /\ \A j \in DOMAIN a : a[j] >= 0 => i.obj[j] = a[j]
   /\ Len(i.obj) = T.sz /\ i.pre = mem.pre /\ i.post = mem.post /\ i.src = mem.src
   /\ \A j \in DOMAIN a : i.obj[j] \in {mem.obj[j], mem.src[j]}
-CopyExact == \A j \in DOMAIN mem.obj : CopyI(mem).obj[j] = mem.src[j]     \* all size bytes, no more (Len fixed)
+CopyExact == n = 0 => \A j \in DOMAIN mem.obj : CopyI(mem).obj[j] = mem.src[j]     \* all size bytes, no more (Len fixed)
 =============================================================================
